@@ -142,6 +142,28 @@ mod driver {
                     }
                 }
                 engine.find_nodes(&key, count).await.unwrap_or_default()
+            } else if case["__params"]["reply"].as_bool().unwrap_or(false) {
+                // trust-weighted selection is enabled with the model's configuration; the peers the model marks pre-trusted are pre-trusted
+                // (an EigenTrustEngine answers 0.9 for them and 0.0 for everybody else before its first computation)
+                let mut trusted: std::collections::HashSet<crate::adaptive::NodeId> = std::collections::HashSet::new();
+                for bk in engine.routing_table.read().await.buckets.iter() {
+                    for n in bk.get_nodes() {
+                        if case.get(&format!("pretrusted.{}", n.capacity.storage_available)).and_then(|v| v.as_bool()).unwrap_or(false) {
+                            trusted.insert(crate::adaptive::NodeId { hash: *n.id.as_bytes() });
+                        }
+                    }
+                }
+                let cfg = TrustSelectionConfig {
+                    trust_weight: 0.3,
+                    min_trust_threshold: 0.1,
+                    exclude_untrusted: case.get("cfg.exclude_untrusted").and_then(|v| v.as_bool()).unwrap_or(false),
+                };
+                engine.enable_trust_selection(Arc::new(EigenTrustEngine::new(trusted)), cfg);
+                let resp = engine.handle_request(DhtRequestWrapper { id: "r".into(), message: DhtMessage::FindNode { target: key.clone(), count } }).await;
+                match resp.response {
+                    DhtResponse::FindNodeReply { nodes, .. } => nodes,
+                    _ => Vec::new(),
+                }
             } else {
                 engine.select_query_peers(&key, count).await
             };
